@@ -52,6 +52,9 @@ theorem supported_aux (n : Nat) :
         rw [codecFor_ptr t' o ht.1]
         simp only [Codec.Supported]
         exact iht t' o (by omega) ht.2 (ptrTarget_notSlice t' ht.1)
+      case arr m e =>
+        have := isByte_eq e ht; subst this
+        simp only [codecFor, codecOf, Codec.Supported]
       all_goals simp only [codecFor, codecOf, Codec.Supported]
     · intro fs pos hsz hf
       cases fs with
@@ -85,7 +88,8 @@ theorem zeroNum_rejected (fs : Fields) (b : Bytes) (h : ZeroNum fs b) : Spec.Pro
 
 /-- **converse of the main theorem**: whatever `Unmarshal` accepts, the reference accepts with the same value — unless
 a record with field number 0 is reached -/
-theorem decode_of_unmarshal (fs : Fields) (hty : tyOK (.struct fs) = true) (b : Bytes) (v : Val)
+theorem decode_of_unmarshal (fs : Fields) (hty : tyOK (.struct fs) = true) (hna : noArr (.struct fs) = true)
+    (b : Bytes) (v : Val)
     (h : unmarshalU (.struct fs) b = .ok v) : ZeroNum fs b ∨ Spec.Protobuf.decode (.struct fs) b = some v := by
   have hty' := hty
   simp only [tyOK, Bool.and_eq_true, decide_eq_true_eq] at hty'
@@ -114,7 +118,7 @@ theorem decode_of_unmarshal (fs : Fields) (hty : tyOK (.struct fs) = true) (b : 
         · simp at h
         · simp only [Res.ok.injEq] at h
           subst h
-          rcases conv_all f fs _ b b.length 0 (zeroFields fs) R hty rfl (by omega) hds with hz | ⟨recs, hp, hr⟩
+          rcases conv_all f fs _ b b.length 0 (zeroFields fs) R hty hna rfl (by omega) hds with hz | ⟨recs, hp, hr⟩
           · exact Or.inl hz
           · refine Or.inr ?_
             rw [zeroFields_eq fs 1 hty'.1] at hr
@@ -122,12 +126,14 @@ theorem decode_of_unmarshal (fs : Fields) (hty : tyOK (.struct fs) = true) (b : 
               Option.bind_some, hr (4 * b.length + 15) (by omega), Option.pure_def, Spec.Protobuf.wrapPtr]
 
 /-- **the two decoders coincide outside `ZeroNum`**: same accepted inputs, literally the same values -/
-theorem unmarshal_iff_decode (fs : Fields) (hty : tyOK (.struct fs) = true) (b : Bytes) (v : Val)
+theorem unmarshal_iff_decode (fs : Fields) (hty : tyOK (.struct fs) = true) (hna : noArr (.struct fs) = true)
+    (b : Bytes) (v : Val)
     (hz : ¬ ZeroNum fs b) : unmarshalU (.struct fs) b = .ok v ↔ Spec.Protobuf.decode (.struct fs) b = some v :=
-  ⟨fun h => (decode_of_unmarshal fs hty b v h).resolve_left hz, unmarshal_of_decode fs hty b v⟩
+  ⟨fun h => (decode_of_unmarshal fs hty hna b v h).resolve_left hz, unmarshal_of_decode fs hty b v⟩
 
 /-- … in particular they reject the same inputs there (the Go side with one of its error classes, never a panic) -/
-theorem reject_iff (fs : Fields) (hty : tyOK (.struct fs) = true) (b : Bytes) (hz : ¬ ZeroNum fs b) :
+theorem reject_iff (fs : Fields) (hty : tyOK (.struct fs) = true) (hna : noArr (.struct fs) = true) (b : Bytes)
+    (hz : ¬ ZeroNum fs b) :
     (∃ e, unmarshalU (.struct fs) b = .err e) ↔ Spec.Protobuf.decode (.struct fs) b = none := by
   constructor
   · rintro ⟨e, he⟩
@@ -135,7 +141,7 @@ theorem reject_iff (fs : Fields) (hty : tyOK (.struct fs) = true) (b : Bytes) (h
   · intro hn
     cases hu : unmarshalU (.struct fs) b with
     | ok v =>
-      have := (unmarshal_iff_decode fs hty b v hz).mp hu
+      have := (unmarshal_iff_decode fs hty hna b v hz).mp hu
       rw [hn] at this; cases this
     | err e => exact ⟨e, rfl⟩
     | panic e =>
@@ -150,11 +156,11 @@ def Disagree (fs : Fields) (b : Bytes) : Prop :=
 
 /-- **exact characterisation of the disagreement**: the Go decoder accepts an input in which a record with field
 number 0 is reached (it skips the record as an unknown field); the reference rejects such inputs -/
-theorem disagree_iff (fs : Fields) (hty : tyOK (.struct fs) = true) (b : Bytes) :
+theorem disagree_iff (fs : Fields) (hty : tyOK (.struct fs) = true) (hna : noArr (.struct fs) = true) (b : Bytes) :
     Disagree fs b ↔ (∃ v, unmarshalU (.struct fs) b = .ok v) ∧ ZeroNum fs b := by
   constructor
   · intro hd
-    have hz : ZeroNum fs b := Classical.byContradiction fun hz => hd fun v => unmarshal_iff_decode fs hty b v hz
+    have hz : ZeroNum fs b := Classical.byContradiction fun hz => hd fun v => unmarshal_iff_decode fs hty hna b v hz
     refine ⟨?_, hz⟩
     have hn := zeroNum_rejected fs b hz
     apply Classical.byContradiction
